@@ -9,14 +9,20 @@ THEOREMS = ['C16_embedded_eq_posthoc', 'C16_embedded_driver', 'C16_variants_equa
 GEN_DEPS = []
 RULE = ('(a) random trees (depth <= 4, 0-4 children, rule names incl. `_x`, three token types, None leaves, childless '
         'trees) x generated pure transformer classes (callbacks on a random subset of rule names and token types building '
-        'tagged tuples; plain / v_args(inline=True) / v_args(tree=True) / mixed): Transformer, Transformer_NonRecursive, '
+        'tagged tuples; plain / function-level v_args(inline=True) / v_args(tree=True) / mixed / class-level v_args / '
+        'v_args(wrapper=custom) / callbacks inherited from a user base class) x how the instance is made (T(), '
+        'T(visit_tokens=True|False), T(False), own __init__ without super with the class attribute __visit_tokens__ '
+        'True|False): Transformer, Transformer_NonRecursive, '
         'Transformer_InPlace, Transformer_InPlaceRecursive each on a fresh copy, with _call_userfunc/_call_userfunc_token '
         'wrapped to log the node (as its path): the four values must be equal, every log must contain every tree/token '
         'node once with children before parents, and value and log (as a list) must equal the Coq traversal models '
-        'under the symbolic transformer; (b) random EBNF grammars of C03 x keep_all_tokens x maybe_placeholders x '
+        'under the symbolic transformer with the same visit_tokens, and the value must equal an independent python '
+        'reference (callbacks bottom-up, tokens untouched when visit_tokens is off); (b) random EBNF grammars of C03 x keep_all_tokens x maybe_placeholders x '
         'transformer classes on rule names / aliases / template names / terminals: Lark(g, parser=lalr, transformer=T()) '
         '.parse(x) == T().transform(Lark(g, parser=lalr).parse(x)), and the Coq embedded model on the derivation lark '
-        'followed gives the same value; (c) python-only: the four classes on DAG-shaped inputs (shared sub-objects). '
+        'followed gives the same value - over lexer in {contextual, basic}, propagate_positions on/off, the same '
+        'class variants and constructor modes (visit_tokens=False only without terminal callbacks: F42); '
+        '(d) TransformerChain T1*T2 over the four classes against the composed reference; (c) python-only: the four classes on DAG-shaped inputs (shared sub-objects). '
         'non-trivial = distinct (tree, transformer) with >= 3 nodes / distinct (grammar, config, text, transformer)')
 TRUSTED_BASE = ['hand model Shape/Transform.v of visitors.py (tied by value and call log on every case); in-place variants '
                 'are modelled on a functional heap (a tree with replaced slots); object identity / DAG inputs are not '
@@ -31,6 +37,7 @@ IMPORTS = 'From LV Require Import Base.Prelude Shape.Chain Shape.Spec Shape.Tran
 
 RULE_POOL = ['a', 'b', 'c', '_x', 'start']
 TOK_POOL = ['A', 'B', 'N']
+VT_KEY = 'F42:embedded-ignores-visit_tokens-False'     # provisional number, see report
 BASES = ['Transformer', 'Transformer_NonRecursive', 'Transformer_InPlace', 'Transformer_InPlaceRecursive']
 
 
@@ -39,31 +46,73 @@ def base_class(name):
     return getattr(v, name)
 
 
-def make_T(base, rules, toks, variant, rng_choices=None):
+VARIANTS = ['plain', 'inline', 'tree', 'mixed', 'cls_inline', 'cls_tree', 'custom', 'inherit', 'cls_inline_inherit']
+# how the instance is created -> effective visit_tokens
+MODES = {'default': True, 'kw_true': True, 'kw_false': False, 'pos_false': False,
+         'own_init': True,            # subclass __init__ without super().__init__(): class attribute __visit_tokens__
+         'own_init_cls_false': False}  # ... and the class attribute set to False
+
+
+def make_T(base, rules, toks, variant, rng_choices=None, mode='default'):
     """a pure transformer class: callbacks build (tag, children-tuple)"""
     from lark import v_args
     ns = {}
     for i, n in enumerate(rules):
         var = variant if variant != 'mixed' else ['plain', 'inline', 'tree'][(rng_choices or [0] * 99)[i % 99] % 3]
-        if var == 'plain':
+        if var in ('plain', 'inherit'):
             def f(self, ch, n=n):
                 return (n, tuple(ch))
-        elif var == 'inline':
+        elif var == 'custom':        # v_args(wrapper=...): a user-supplied visit wrapper
+            def g(self, data, ch, n=n):
+                return (n, tuple(ch)) if data == n else ('wrong-data', (data,))
+            g.__name__ = n
+            f = v_args(wrapper=lambda fn, data, children, meta: fn(data, children))(g)
+        elif var in ('inline', 'cls_inline', 'cls_inline_inherit'):
             def g(self, *ch, n=n):
                 return (n, tuple(ch))
             g.__name__ = n
-            f = v_args(inline=True)(g)
+            f = v_args(inline=True)(g) if var == 'inline' else g
         else:
             def g(self, t, n=n):
                 return (n, tuple(t.children))
             g.__name__ = n
-            f = v_args(tree=True)(g)
+            f = v_args(tree=True)(g) if var == 'tree' else g
         ns[n] = f
     for k in toks:
         def h(self, tok, k=k):
             return (k, (tok,))
+        h.__name__ = k
         ns[k] = h
-    return type('T', (base_class(base),), ns)
+    if mode.startswith('own_init'):
+        def init(self):
+            pass
+        ns['__init__'] = init
+        if mode == 'own_init_cls_false':
+            ns['__visit_tokens__'] = False
+    parent = base_class(base)
+    if variant in ('inherit', 'cls_inline_inherit'):
+        # half of the callbacks live in a user base class and are inherited
+        names = [k for k in ns if not k.startswith('__')]
+        inherited = {k: ns.pop(k) for k in names[::2]}
+        parent = type('TB', (parent,), inherited)
+        if variant == 'cls_inline_inherit':
+            parent = v_args(inline=True)(parent)
+    cls = type('T', (parent,), ns)
+    if variant in ('cls_inline', 'cls_inline_inherit'):
+        cls = v_args(inline=True)(cls)         # class-level decorator: wraps every public callable
+    elif variant == 'cls_tree':
+        cls = v_args(tree=True)(cls)
+    return cls
+
+
+def instantiate(cls, mode):
+    if mode == 'kw_true':
+        return cls(visit_tokens=True)
+    if mode == 'kw_false':
+        return cls(visit_tokens=False)
+    if mode == 'pos_false':
+        return cls(False)
+    return cls()
 
 
 def random_tree(rng, depth=0):
@@ -88,22 +137,23 @@ def paths_of(obj, p=(), out=None):
     return out
 
 
-def node_paths(t, p=()):
+def node_paths(t, p=(), vt=True):
+    """nodes whose callback must be called: trees, and tokens when visit_tokens is on"""
     if t is None:
         return []
     if t[0] == 't':
-        return [p]
+        return [p] if vt else []
     out = [p]
     for i, c in enumerate(t[2]):
-        out += node_paths(c, p + (i,))
+        out += node_paths(c, p + (i,), vt)
     return out
 
 
-def run_variant(base, rules, toks, variant, choices, t):
+def run_variant(base, rules, toks, variant, choices, t, mode='default'):
     """-> (value, log) or ('exc', repr)"""
     obj = sl.to_lark(t)
     paths = paths_of(obj)
-    T = make_T(base, rules, toks, variant, choices)()
+    T = instantiate(make_T(base, rules, toks, variant, choices, mode), mode)
     log = []
     ou, ot = T._call_userfunc, T._call_userfunc_token
 
@@ -122,8 +172,18 @@ def run_variant(base, rules, toks, variant, choices, t):
         return ('exc', repr(ex)[:200])
 
 
-def log_ok(t, log):
-    want = node_paths(t)
+def ref_value(t, rules, toks, vt):
+    """the documented result: callbacks bottom-up, default = rebuild the tree / keep the token"""
+    if t is None:
+        return None
+    if t[0] == 't':
+        return ('U', t[1], (t,)) if (vt and t[1] in toks) else t
+    ch = tuple(ref_value(c, rules, toks, vt) for c in t[2])
+    return ('U', t[1], ch) if t[1] in rules else ('T', t[1], ch)
+
+
+def log_ok(t, log, vt=True):
+    want = node_paths(t, (), vt)
     if sorted(log) != sorted(want):
         return 'log is not one entry per node'
     pos = {p: i for i, p in enumerate(log)}
@@ -147,23 +207,28 @@ def correspond(ctx):
         t = ('T', rng.choice(RULE_POOL), tuple(random_tree(rng, 1) for _ in range(rng.choice([0, 1, 2, 3, 4]))))
         rules = [n for n in RULE_POOL if n != '_x' and rng.random() < 0.55]
         toks = [k for k in TOK_POOL if rng.random() < 0.5]
-        variant = rng.choice(['plain', 'inline', 'tree', 'mixed'])
+        variant = rng.choice(VARIANTS)
+        mode = rng.choice(['default', 'default', 'kw_true', 'kw_false', 'kw_false', 'pos_false', 'own_init',
+                           'own_init_cls_false'])
+        vt = MODES[mode]
         choices = [rng.randrange(3) for _ in range(99)]
-        obs = [run_variant(b, rules, toks, variant, choices, t) for b in BASES]
-        wit = {'tree': t, 'rules': rules, 'toks': toks, 'variant': variant, 'choices': choices[:len(rules)]}
-        ctx.count('variants', key=(repr(t), tuple(rules), tuple(toks), variant), nontrivial=sl.stree_size(t) >= 3,
-                  variant=variant, size=min(sl.stree_size(t) // 5 * 5, 40))
+        obs = [run_variant(b, rules, toks, variant, choices, t, mode) for b in BASES]
+        wit = {'tree': t, 'rules': rules, 'toks': toks, 'variant': variant, 'choices': choices[:len(rules)], 'mode': mode}
+        ctx.count('variants', key=(repr(t), tuple(rules), tuple(toks), variant, mode), nontrivial=sl.stree_size(t) >= 3,
+                  variant=variant, size=min(sl.stree_size(t) // 5 * 5, 40), construct=mode)
+        want = ref_value(t, rules, toks, vt)
         bad = None
         if any(o[0] == 'exc' for o in obs):
             bad = 'a traversal raised: %s' % [o[1] for o in obs if o[0] == 'exc'][0]
-        elif any(o[0] != obs[0][0] for o in obs):
-            k = [o[0] != obs[0][0] for o in obs].index(True)
-            bad = '%s returns %s but Transformer returns %s' % (BASES[k], sl.show_v(obs[k][0]), sl.show_v(obs[0][0]))
+        elif any(o[0] != want for o in obs):
+            k = [o[0] != want for o in obs].index(True)
+            bad = '%s (%s, visit_tokens=%s) returns %s; the documented result is %s' % (
+                BASES[k], mode, vt, sl.show_v(obs[k][0]), sl.show_v(want))
         else:
             for b, o in zip(BASES, obs):
-                m = log_ok(t, [tuple(p) for p in o[1]])
+                m = log_ok(t, [tuple(p) for p in o[1]], vt)
                 if m:
-                    bad = '%s: %s' % (b, m)
+                    bad = '%s (%s, visit_tokens=%s): %s' % (b, mode, vt, m)
                     break
         if bad:
             ctx.violation('variants', wit, True, bad)
@@ -174,7 +239,7 @@ def correspond(ctx):
                           'the three post-order traversals log different orders (each is children-first)')
             continue
         # the four values are equal and three logs are equal (checked above): emitted once
-        cases.append('((%s, %s, %s, %s, %s, %s) : tr_case)' % (L([S(n) for n in rules]), L([S(k) for k in toks]), sl.stree_lit(t),
+        cases.append('((%s, %s, %s, %s, %s, %s, %s) : tr_case)' % (L([S(n) for n in rules]), L([S(k) for k in toks]), sl.B(vt), sl.stree_lit(t),
                                                    sl.value_lit(obs[0][0]), L([path_lit(p) for p in obs[0][1]]),
                                                    L([path_lit(p) for p in obs[2][1]])))
         meta.append(wit)
@@ -222,8 +287,9 @@ def correspond(ctx):
         tried += 1
         G = sl.gen_grammar(rng)
         ka, mp = rng.random() < 0.3, rng.random() < 0.6
+        lexer, pp = rng.choice(['contextual', 'contextual', 'basic']), rng.random() < 0.3
         try:
-            plain = Lark(G.text, parser='lalr', keep_all_tokens=ka, maybe_placeholders=mp)
+            plain = Lark(G.text, parser='lalr', keep_all_tokens=ka, maybe_placeholders=mp, lexer=lexer, propagate_positions=pp)
         except LarkError:
             continue
         except Exception as ex:
@@ -262,13 +328,17 @@ def correspond(ctx):
             rules = sorted(n for n in names if rng.random() < 0.6)
             toks = [k for k in termnames if rng.random() < 0.4 and not k.startswith('__')]
             base = rng.choice(['Transformer', 'Transformer', 'Transformer_NonRecursive', 'Transformer_InPlaceRecursive'])
-            variant = rng.choice(['plain', 'inline', 'tree', 'mixed'])
+            variant = rng.choice(VARIANTS)
             choices = [rng.randrange(3) for _ in range(99)]
+            mode = rng.choice(['default', 'default', 'kw_true', 'own_init', 'kw_false', 'own_init_cls_false'])
+            if not MODES[mode]:
+                toks = []       # visit_tokens=False with terminal callbacks is the known finding F42 (exotic stream)
             wit = {'grammar': G.text, 'text': text, 'keep_all_tokens': ka, 'maybe_placeholders': mp, 'base': base,
-                   'variant': variant, 'rules': rules, 'toks': toks, 'choices': choices[:len(rules)]}
+                   'variant': variant, 'rules': rules, 'toks': toks, 'choices': choices[:len(rules)], 'mode': mode,
+                   'lexer': lexer, 'propagate_positions': pp}
             bad, emb, post = embedded_vs_posthoc(wit, plain, tree)
-            ctx.count('embedded', key=(G.text, text, ka, mp, base, variant, tuple(rules), tuple(toks)), base=base,
-                      emb_variant=variant, nontrivial=True)
+            ctx.count('embedded', key=(G.text, text, ka, mp, base, variant, tuple(rules), tuple(toks), mode, lexer, pp), base=base,
+                      emb_variant=variant, nontrivial=True, emb_construct=mode, lexer=lexer, propagate_positions=pp)
             got_one = True
             if bad:
                 ctx.violation('embedded-vs-posthoc', wit, True, bad)
@@ -291,6 +361,8 @@ def correspond(ctx):
     bad, errs = ctx.coq_bad_indices('c16', IMPORTS, 'c16_check', [d[0] for d in deferred], chunk=chunk)
     for e in errs:
         ctx.violation('correspondence:coq-eval', {'error': e}, False, e[:300])
+    chain_stream(ctx)
+    g0 = 'start: a B\na: A\nA: "a"\nB: "b"\n'
     seen = {'tr': 0, 'emb': 0}
     for i in bad:
         kind, m = deferred[i][1]
@@ -306,6 +378,13 @@ def correspond(ctx):
             ctx.violation('correspondence:Shape/Transform.embedded vs Lark(transformer=T)',
                           dict(m, no_longer_checks='Coq embedded model on the LALR derivation == value lark returned'), False,
                           'Coq embedded model differs from the value lark returned (embedded == post-hoc still holds on this case)')
+    # (x2) exotic: the embedded parser installs terminal callbacks even for T(visit_tokens=False)
+    wit = {'grammar': g0, 'text': 'ab', 'keep_all_tokens': False, 'maybe_placeholders': True, 'base': 'Transformer',
+           'variant': 'plain', 'rules': ['a'], 'toks': ['A'], 'choices': [0], 'mode': 'kw_false'}
+    bad, emb, post = embedded_vs_posthoc(wit)
+    ctx.count('exotic-embedded-visit_tokens', key='F42')
+    if bad:
+        ctx.violation('embedded-vs-posthoc', wit, True, bad, key=VT_KEY)
     # (x) exotic: a Transformer_InPlace subclass as embedded transformer (create_callback passes a Tree) ------------
     g = 'start: a B\na: A\nA: "a"\nB: "b"\n'
     wit = {'grammar': g, 'text': 'ab', 'keep_all_tokens': False, 'maybe_placeholders': True, 'base': 'Transformer_InPlace',
@@ -315,6 +394,54 @@ def correspond(ctx):
     ctx.count('exotic-embedded-inplace', key='F27')
     if bad:
         ctx.violation('embedded-vs-posthoc', wit, True, bad, key='F27:embedded-Transformer_InPlace-callback-gets-Tree')
+
+
+def chain_stream(ctx):
+    """TransformerChain (T1 * T2) over the four classes: the second transformer meets the user values
+    the first one produced (neither Tree nor Token: passed through untouched)"""
+    rng = ctx.rng
+    for _ in range(ctx.scale(80, 800)):
+        t = ('T', 'start', tuple(random_tree(rng, 1) for _ in range(rng.choice([1, 2, 3, 4]))))
+        r1 = [n for n in ('a', 'b') if rng.random() < 0.7]
+        r2 = [n for n in ('c', 'start') if rng.random() < 0.7]
+        k1 = [k for k in TOK_POOL if rng.random() < 0.4]
+        k2 = [k for k in TOK_POOL if k not in k1 and rng.random() < 0.4]
+        mode = rng.choice(['default', 'kw_false'])
+        vt = MODES[mode]
+        want = ref_chain(ref_value(t, r1, k1, vt), r2, k2, vt)
+        for b in BASES:
+            try:
+                T1, T2 = make_T(b, r1, k1, 'plain', None, mode), make_T(b, r2, k2, 'plain', None, mode)
+                got = sl.value_of((instantiate(T1, mode) * instantiate(T2, mode)).transform(sl.to_lark(t)))
+            except Exception as ex:
+                got = ('exc', repr(ex)[:200])
+            ctx.count('chain', key=(repr(t), tuple(r1), tuple(r2), tuple(k1), tuple(k2), mode, b), nontrivial=True)
+            if got != want:
+                ctx.violation('variants-chain', {'chain_tree': t, 'r1': r1, 'r2': r2, 'k1': k1, 'k2': k2, 'mode': mode, 'base': b},
+                              True, '(%s * %s) returns %s, composing the documented results gives %s' % (b, b, sl.show_v(got), sl.show_v(want)))
+                break
+
+
+def ref_chain(v, rules, toks, vt):
+    """documented result of a second transformer applied to a VALUE (trees/tokens inside user values are not visited)"""
+    if v is None or v[0] == 'U':
+        return v
+    if v[0] == 't':
+        return ('U', v[1], (v,)) if (vt and v[1] in toks) else v
+    ch = tuple(ref_chain(c, rules, toks, vt) for c in v[2])
+    return ('U', v[1], ch) if v[1] in rules else ('T', v[1], ch)
+
+
+def chain_bad(w):
+    t = _tup(w['chain_tree'])
+    vt = MODES[w['mode']]
+    want = ref_chain(ref_value(t, w['r1'], w['k1'], vt), w['r2'], w['k2'], vt)
+    try:
+        T1, T2 = make_T(w['base'], w['r1'], w['k1'], 'plain', None, w['mode']), make_T(w['base'], w['r2'], w['k2'], 'plain', None, w['mode'])
+        got = sl.value_of((instantiate(T1, w['mode']) * instantiate(T2, w['mode'])).transform(sl.to_lark(t)))
+    except Exception:
+        return True
+    return got != want
 
 
 def dag_witness_bad(w):
@@ -329,17 +456,19 @@ def dag_witness_bad(w):
 
 def embedded_vs_posthoc(w, plain=None, tree=None):
     from lark import Lark
-    T = make_T(w['base'], w['rules'], w['toks'], w['variant'], w['choices'] + [0] * 99)
-    kw = dict(parser='lalr', keep_all_tokens=w['keep_all_tokens'], maybe_placeholders=w['maybe_placeholders'])
+    mode = w.get('mode', 'default')
+    T = make_T(w['base'], w['rules'], w['toks'], w['variant'], w['choices'] + [0] * 99, mode)
+    kw = dict(parser='lalr', keep_all_tokens=w['keep_all_tokens'], maybe_placeholders=w['maybe_placeholders'],
+              lexer=w.get('lexer', 'contextual'), propagate_positions=w.get('propagate_positions', False))
     if plain is None:
         plain = Lark(w['grammar'], **kw)
         tree = plain.parse(w['text'])
     try:
-        emb = sl.value_of(Lark(w['grammar'], transformer=T(), **kw).parse(w['text']))
+        emb = sl.value_of(Lark(w['grammar'], transformer=instantiate(T, mode), **kw).parse(w['text']))
     except Exception as ex:
         emb = ('exc', repr(ex)[:200])
     try:
-        post = sl.value_of(T().transform(copy.deepcopy(tree)))     # in-place classes rewrite their input
+        post = sl.value_of(instantiate(T, mode).transform(copy.deepcopy(tree)))     # in-place classes rewrite their input
     except Exception as ex:
         post = ('exc', repr(ex)[:200])
     if emb != post:
@@ -367,10 +496,14 @@ def replay(ctx, case):
             return True
     if 'tree' in w:
         t = _tup(w['tree'])
-        obs = [run_variant(b, w['rules'], w['toks'], w['variant'], w['choices'] + [0] * 99, t) for b in BASES]
-        if any(o[0] == 'exc' for o in obs) or any(o[0] != obs[0][0] for o in obs):
+        mode = w.get('mode', 'default')
+        obs = [run_variant(b, w['rules'], w['toks'], w['variant'], w['choices'] + [0] * 99, t, mode) for b in BASES]
+        want = ref_value(t, w['rules'], w['toks'], MODES[mode])
+        if any(o[0] == 'exc' for o in obs) or any(o[0] != want for o in obs):
             return True
-        return any(log_ok(t, [tuple(p) for p in o[1]]) for o in obs)
+        return any(log_ok(t, [tuple(p) for p in o[1]], MODES[mode]) for o in obs)
+    if 'chain_tree' in w:
+        return chain_bad(w)
     if 'dag_witness' in w:
         return dag_witness_bad(w)
     if 'shared' in w:
